@@ -549,7 +549,7 @@ int dorewritesupattr(struct radmsg *msg, struct tlv *supattr) {
         if (attr->t == supattr->t && attr->t != RAD_Attr_Vendor_Specific) {
             exist = 1;
             break;
-        } else if (supattr->t == RAD_Attr_Vendor_Specific && attr->t == RAD_Attr_Vendor_Specific &&
+        } else if (supattr->t == RAD_Attr_Vendor_Specific && supattr->l > 4 && attr->t == RAD_Attr_Vendor_Specific &&
                    attr->l >= 4 && memcmp(supattr->v, attr->v, 4) == 0) {
             if (!attrvalidate(attr->v + 4, attr->l - 4)) {
                 debug(DBG_INFO, "dorewritesup: vendor attribute validation failed, no rewrite");
